@@ -50,8 +50,8 @@ def tree_model(draw, min_tokens=1, max_tokens=8, disc=0.5, unary=True, words=pla
     """Bottom-up agglomeration over tokens 1..n.  disc = probability that a grouping step may take a
     non-adjacent subset.  fields: 'full' (lemma/morph strings), 'none' (None), 'mixed'."""
     n = draw(st.integers(min_tokens, max_tokens))
-    lemmas = lemmas or words
-    morphs = morphs or st.sampled_from(["--", "Nom.Sg", "3.Sg", "*"])
+    lemmas = words if lemmas is None else lemmas
+    morphs = st.sampled_from(["--", "Nom.Sg", "3.Sg", "*"]) if morphs is None else morphs
 
     def opt(strategy, default):
         if fields == "full":
